@@ -63,6 +63,7 @@ type Ctx struct {
 	curResults []Value   // set while postconditions of one return are generated (for replay)
 	fi       *FuncInfo   // function under verification (nil for lemmas)
 	inputVals []inputVal // typed input values (for replay)
+	heapRec  map[string]Sort // when non-nil, heap() records the heaps it is asked for (reads of an opaque spec body)
 }
 
 type inputVal struct {
